@@ -607,13 +607,16 @@ func fix128BigIntToUFix64(
 	bigInt *big.Int,
 ) UFix64Value {
 
-	if bigInt.Cmp(fixedpoint.UFix64TypeMaxScaledTo128) > 0 {
-		panic(&OverflowError{})
-	} else if bigInt.Cmp(fixedpoint.UFix64TypeMinScaledTo128) < 0 {
-		panic(&UnderflowError{})
-	}
+	// NOTE: truncate toward zero (Quo)
+	bigInt = new(big.Int).Quo(bigInt, fixedpoint.Fix64ToFix128FactorAsBigInt)
 
-	bigInt = bigInt.Div(bigInt, fixedpoint.Fix64ToFix128FactorAsBigInt)
+	// Check the range of the truncated value, not of the value before truncation:
+	// excess fractional digits must not make a representable value fail
+	if bigInt.Sign() < 0 {
+		panic(&UnderflowError{})
+	} else if !bigInt.IsUint64() {
+		panic(&OverflowError{})
+	}
 
 	return NewUFix64Value(
 		memoryGauge,
